@@ -211,7 +211,7 @@ def simulate(
 
     processed = _process_simulated_data(_simulation_results)
 
-    if additional_targets is not None:
+    if additional_targets:
         calculated_targets = _compute_targets(
             processed,
             targets=additional_targets,
